@@ -8,12 +8,17 @@ import detsim
 from common import Ctx
 
 PROP = "C02"
-LEAN_MODULE = "TsProofs.Properties.C02"
+LEAN_MODULE = "TsProofs.Properties.C02World"   # imports TsProofs.Properties.C02
 THEOREMS = [
     "Ts.Commit.C02_crash_atomic_json",
     "Ts.Commit.C02_commit_last",
     "Ts.Commit.C02_crash_atomic",
     "Ts.Commit.C02_return_implies_committed",
+    # commit protocol x job data plane (TsModel/CrashWorld.lean): readable after a crash => every rank restores exactly
+    "Ts.World.C02_world_crash_restore",
+    "Ts.World.C02_world_crash_unreadable_or_complete",
+    "Ts.World.storeAtCut_complete",
+    "Ts.World.C01_world_roundtrip",
 ]
 BUDGET_S = (150, 900)
 RULE = ("The real Snapshot.take and Snapshot.async_take(+wait) run for W in {1,2,3} ranks (1-3 payload writes per rank, batching "
@@ -83,6 +88,11 @@ def _account(ctx: Ctx, case, summ, suite):
 
 
 def run(ctx: Ctx):
+    # tie of the job data-plane model used by C02_world_crash_restore (shared with C01): in particular the number of
+    # storage objects each rank writes (= the protocol model's nw r) and their bytes
+    from props import c01_world
+    for i in range(ctx.n(25, 300)):
+        c01_world.world_tie_case(ctx, c01_world.gen_world_case(ctx.rng), "world_tie")
     detsim.install()
     cut_rng = random.Random(f"C02cuts:{ctx.seed}")
     for case in CORPUS:
@@ -169,6 +179,12 @@ def _thorough(ctx: Ctx, cut_rng):
 
 
 def replay(ctx: Ctx, rec):
+    if "glob" in rec["input"] or "glob" in (rec["input"].get("case") or {}):
+        from props import c01_world
+        c01_world.world_tie_case(ctx, rec["input"].get("case") or rec["input"], "replay")
+        for f in ctx.failures[:10]:
+            print("FAIL", f["sig"], f["what"], f["observed"])
+        return
     detsim.install()
     case = rec["input"]
     if "rounds" not in case:
